@@ -1,0 +1,6 @@
+//go:build !verif
+
+package proxycore
+
+// verifTrace is a hook of the verification harness; it does nothing unless built with -tags verif.
+func verifTrace(kind string, table interface{}, stream int, request interface{}) {}
